@@ -15,7 +15,9 @@ ParseDec(cs) ==
   IN IF ok THEN [ok |-> TRUE, neg |-> neg, num |-> FromDigits([i \in 1 .. Len(ip) + Len(fp) |-> DigitVal((ip \o fp)[i])]), scale |-> Len(fp)]
      ELSE [ok |-> FALSE, neg |-> FALSE, num |-> <<>>, scale |-> 0]
 
-(* the value of an aggregated column for node n, as BigNat *)
+(* the value of an aggregated column for node n, as BigNat; a column may be undefined for an entry (line_count of a *)
+(* directory): such an entry counts for COUNT and contributes nothing to SUM, MIN and MAX                           *)
+Defined(r, n, col) == col = "size" \/ Attr(r, n, col).t # "none"
 NatOf(r, n, col) ==
   IF col = "size" THEN LET c == r.snapshot[n].sizec IN FromDigits([i \in 1 .. Len(c) |-> DigitVal(c[i])])
   ELSE FromInt(Attr(r, n, col).v)
@@ -23,10 +25,11 @@ NatOf(r, n, col) ==
 RECURSIVE SumOver(_, _, _, _)
 SumOver(r, S, col, sq) ==
   IF S = {} THEN <<>>
-  ELSE LET n == CHOOSE x \in S : TRUE  v == NatOf(r, n, col)
+  ELSE LET n == CHOOSE x \in S : TRUE  v == IF Defined(r, n, col) THEN NatOf(r, n, col) ELSE <<>>
        IN Add(IF sq THEN Mul(v, v) ELSE v, SumOver(r, S \ {n}, col, sq))
-MinOver(r, S, col) == NatOf(r, CHOOSE n \in S : \A m \in S : Leq(NatOf(r, n, col), NatOf(r, m, col)), col)
-MaxOver(r, S, col) == NatOf(r, CHOOSE n \in S : \A m \in S : Leq(NatOf(r, m, col), NatOf(r, n, col)), col)
+DefinedIn(r, S, col) == { n \in S : Defined(r, n, col) }
+MinOver(r, S, col) == LET D == DefinedIn(r, S, col) IN NatOf(r, CHOOSE n \in D : \A m \in D : Leq(NatOf(r, n, col), NatOf(r, m, col)), col)
+MaxOver(r, S, col) == LET D == DefinedIn(r, S, col) IN NatOf(r, CHOOSE n \in D : \A m \in D : Leq(NatOf(r, m, col), NatOf(r, n, col)), col)
 
 IsInt(d, v) == d.ok /\ ~(d.neg /\ ~IsZero(d.num)) /\ d.num = Mul(v, Pow10(d.scale))
 Tiny(d) == d.ok /\ Leq(Mul(d.num, Pow10(6)), Pow10(d.scale))            \* |d| <= 10^-6
@@ -39,10 +42,13 @@ AggOk(r, S, fn, col, cs) ==
       s2 == SumOver(r, S, col, TRUE)
       v  == Sub(MulSmall(s2, n), Mul(s1, s1))          \* n*sum(x^2) - sum(x)^2  >= 0
       den == IF fn \in {"var_pop", "stddev_pop"} THEN n * n ELSE n * (n - 1)
+      nd == Cardinality(DefinedIn(r, S, col))
   IN CASE fn = "count" -> B3(IsInt(d, FromInt(n)))
        [] fn = "sum" -> B3(IsInt(d, s1))
-       [] fn = "min" -> IF n = 0 THEN "U" ELSE B3(IsInt(d, MinOver(r, S, col)))
-       [] fn = "max" -> IF n = 0 THEN "U" ELSE B3(IsInt(d, MaxOver(r, S, col)))
+       [] fn = "min" -> IF nd = 0 THEN "U" ELSE B3(IsInt(d, MinOver(r, S, col)))
+       [] fn = "max" -> IF nd = 0 THEN "U" ELSE B3(IsInt(d, MaxOver(r, S, col)))
+       \* (the statement defines the variances only over entries that all have a value)
+       [] fn \in {"var_pop", "var_samp", "stddev_pop", "stddev_samp"} /\ nd # n -> "U"
        [] fn = "avg" -> IF n = 0 THEN "U"
                         ELSE B3(d.ok /\ ~(d.neg /\ ~IsZero(d.num)) /\
                                 (IF IsZero(s1) THEN IsZero(d.num) ELSE CloseRel(d.num, Pow10(d.scale), s1, FromInt(n), 9)))
